@@ -1,6 +1,7 @@
 // Oracle self-test: perft counts published in /repo/tests/run_perft_tests.sh (and the classical suite).
 #include "refchess.h"
 #include "../gen/posgen.h"
+#include "refpolyglot.h"
 #include <cstdio>
 struct T { const char* fen; int d; unsigned long long n; };
 static const T tests[] = {
@@ -44,6 +45,19 @@ int main(){
   { ref::Pos p; ref::from_fen("8/6b1/8/4Pp2/8/2K5/8/7k w - f6 0 1",p); bool f=false; for(auto&m:ref::legal_moves(p)) f|=m.uci()=="e5f6"; if(!f){printf("pinned ep missing\n");bad++;} if(ref::legal_moves(p).size()!=9){printf("pinned ep count %zu\n",ref::legal_moves(p).size());bad++;} }
   // rank-exposed en passant must be illegal
   { ref::Pos p; ref::from_fen("8/8/8/K2pP2r/8/8/8/7k w - d6 0 1",p); for(auto&m:ref::legal_moves(p)) if(m.uci()=="e5d6"){printf("rank-exposed ep allowed\n");bad++;} }
+  { struct V{const char*fen; unsigned long long k;}; static const V vs[]={
+    {"rnbqkbnr/pppppppp/8/8/8/8/PPPPPPPP/RNBQKBNR w KQkq - 0 1", 0x463b96181691fc9cULL},
+    {"rnbqkbnr/pppppppp/8/8/4P3/8/PPPP1PPP/RNBQKBNR b KQkq e3 0 1", 0x823c9b50fd114196ULL},
+    {"rnbqkbnr/ppp1pppp/8/3p4/4P3/8/PPPP1PPP/RNBQKBNR w KQkq d6 0 2", 0x0756b94461c50fb0ULL},
+    {"rnbqkbnr/ppp1pppp/8/3pP3/8/8/PPPP1PPP/RNBQKBNR b KQkq - 0 2", 0x662fafb965db29d4ULL},
+    {"rnbqkbnr/ppp1p1pp/8/3pPp2/8/8/PPPP1PPP/RNBQKBNR w KQkq f6 0 3", 0x22a48b5a8e47ff78ULL},
+    {"rnbqkbnr/ppp1p1pp/8/3pPp2/8/8/PPPPKPPP/RNBQ1BNR b kq - 0 3", 0x652a607ca3f242c1ULL},
+    {"rnbq1bnr/ppp1pkpp/8/3pPp2/8/8/PPPPKPPP/RNBQ1BNR w - - 0 4", 0x00fdd303c946bdd9ULL},
+    {"rnbqkbnr/p1pppppp/8/8/PpP4P/8/1P1PPPP1/RNBQKBNR b KQkq c3 0 3", 0x3c8123ea7b067637ULL},
+    {"rnbqkbnr/p1pppppp/8/8/P6P/R1p5/1P1PPPP1/1NBQKBNR b Kkq - 0 4", 0x5c3f9b829b279560ULL}};
+    for(const V&v:vs){ ref::Pos p; ref::from_fen(v.fen,p); if(ref::polyglot_key(p)!=v.k){printf("polyglot vector mismatch %s got %llx\n",v.fen,(unsigned long long)ref::polyglot_key(p));bad++;} }
+    if(ref::POLYGLOT_RANDOM64[0]!=0x9D39247E33776D41ULL||ref::POLYGLOT_RANDOM64[780]!=0xF8D626AAAF278509ULL||ref::POLYGLOT_RANDOM64[768]!=0x31D71DCE64B2C310ULL||ref::POLYGLOT_RANDOM64[771]!=0x1EF6E6DBB1961EC9ULL||ref::POLYGLOT_RANDOM64[772]!=0x70CC73D90BC26E24ULL){printf("polyglot anchor constants\n");bad++;}
+  }
   for(int i=0;i<gen::CATALOG_N;++i){ ref::Pos p; if(!ref::from_fen(gen::CATALOG[i],p)||!ref::domain_violation(p).empty()){printf("catalog entry outside domain: %s (%s)\n",gen::CATALOG[i],ref::domain_violation(p).c_str());bad++;} }
   printf(bad?"SELFTEST FAILED\n":"SELFTEST OK\n");
   return bad?1:0;
